@@ -95,7 +95,7 @@ def gen_pd(rng, tier, independent=False):
     return {"kx": kx, "ky": ky, "kz": kz, "rows": rows, "lam": lam, "num": rng.choice([0.5, 2.0, -1.5, 0, 0.0, 1, 1.0]), "alpha": rng.choice([0.01, 0.05, 0.5]),
             "dtype": rng.choice(["int", "int", "category"]), "independent": independent,
             # the statistic does not depend on how states are labelled nor on the frame's index
-            "zform": rng.randrange(5), "edit": rng.random() < .4, "relabel": rng.choice([None, None, rng.randrange(10 ** 6)]), "index": rng.choice(["range", "range", "shuffled", "reversed", "str"])}
+            "zform": rng.randrange(5), "edit": rng.random() < .4, "relabel": rng.choice([None, None, rng.randrange(10 ** 6)]), "index": rng.choice(["range", "range", "shuffled", "reversed", "str", "dup"])}
 
 
 def gen_indep(rng, tier):
@@ -144,6 +144,8 @@ def make_df(case):
         df.index = list(range(len(df) - 1, -1, -1))
     elif ik == "str":
         df.index = ["r%d" % i for i in range(len(df))]
+    elif ik == "dup":
+        df.index = [i % 7 for i in range(len(df))]              # repeated index labels (a bootstrap resample, a concat without ignore_index)
     return df, cols[2:]
 
 
@@ -384,6 +386,8 @@ def run_pcuse(case, drv):
     n = case["n"]
     names = ["V%d" % i for i in range(n)]
     df = pd.DataFrame(case["rows"], columns=names)
+    if len(case["rows"]) % 3 == 0:
+        df = df + 20240100          # integer codes beyond 2**24 (dates, record ids): the same tables, other labels
     lam, alpha, variant = case["lam"], case["alpha"], case["variant"]
     tags = dict(variant=variant, lam=str(lam))
 
